@@ -690,6 +690,7 @@ class Emitter:
         # entry block label: the implicit number
         if blocks[0][0] == '%entry_':
             blocks[0] = ('%' + str(len(f.params)), blocks[0][1])
+        blocks = s.rpo(blocks)
         # declare locals
         decls = []
         phis = {}  # block -> list of (dest, ty, [(val, pred)])
@@ -736,6 +737,40 @@ class Emitter:
         s.cur_fn = None
         o.append('}')
         return '\n'.join(o)
+
+    def rpo(s, blocks):
+        """reverse post-order of the CFG: every backward goto in the emitted C is then a genuine loop back-edge
+        (CBMC identifies loops by backward jumps; LLVM's block layout after loop rotation is not always topological)"""
+        succ = {}
+        for bn, ins in blocks:
+            t = ins[-1] if ins else None
+            out = []
+            if t is not None:
+                if t['op'] == 'br':
+                    out = [t['uncond']] if 'uncond' in t else [t['t'], t['f']]
+                elif t['op'] == 'switch':
+                    out = [t['default']] + [lab for _, lab in t['cases']]
+            succ[bn] = out
+        order = []; seen = set()
+        entry = blocks[0][0]
+        # iterative DFS, successors visited in reverse so that the first successor comes first in RPO
+        stack = [(entry, iter(reversed(succ.get(entry, []))))]
+        seen.add(entry)
+        while stack:
+            n, it = stack[-1]
+            adv = False
+            for m in it:
+                if m not in seen and m in succ:
+                    seen.add(m); stack.append((m, iter(reversed(succ[m])))); adv = True; break
+            if not adv:
+                order.append(n); stack.pop()
+        order.reverse()
+        bm = dict(blocks)
+        res = [(n, bm[n]) for n in order]
+        # unreachable blocks are dropped (they may still be phi sources: keep them at the end)
+        for bn, ins in blocks:
+            if bn not in seen: res.append((bn, ins))
+        return res
 
     BINOPS = {'add', 'sub', 'mul', 'udiv', 'sdiv', 'urem', 'srem', 'shl', 'lshr', 'ashr', 'and', 'or', 'xor',
               'fadd', 'fsub', 'fmul', 'fdiv', 'frem'}
@@ -1227,16 +1262,18 @@ class Emitter:
                 b = '  /* declared stub: havoc */'
             elif kind == 'unreachable':
                 b = '  VERIF_ASSERT(0, "declared-unreachable stub reached: %s"); __CPROVER_assume(0);' % cid(f.name)[:90]
-            elif kind == 'noop':
-                b = '  /* declared stub: no-op */'
+            elif kind in ('noop', 'ret0', 'ret1'):
+                b = '  /* declared stub: %s */' % kind
             else:
                 raise ValueError('stub kind %s' % kind)
             if r.k == 'void':
                 stubtxt.append('%s {\n%s\n}' % (s.proto(f), b))
             else:
                 ct = s.cty(f.ret)
-                if kind == 'noop':
+                if kind in ('noop', 'ret0'):
                     stubtxt.append('%s {\n%s\n  %s r_; memset(&r_, 0, sizeof r_); return r_;\n}' % (s.proto(f), b, ct))
+                elif kind == 'ret1':
+                    stubtxt.append('%s {\n%s\n  return (%s)1;\n}' % (s.proto(f), b, ct))
                 else:
                     stubtxt.append('%s {\n%s\n  %s r_; VERIF_HAVOC(r_); return r_;\n}' % (s.proto(f), b, ct))
         gtxt = []
@@ -1393,6 +1430,9 @@ uint64_t verif_req[VERIF_OBJ_TABLE];   /* requested size + 1, 0 = not a modelled
 #endif
 uint8_t* _Znwm(uint64_t n) {
   VERIF_ALLOCBOUND(VERIF_ALLOC_BOUND(n), "ALLOC-BOUND: allocation size not justified by remaining input / declared counts");
+#if defined(__CPROVER__) && !defined(VERIF_ALLOW_ALLOC_CUT) && !defined(VERIF_WITNESS_ONLY)
+  __CPROVER_assert(n <= VERIF_MAX_ALLOC, "ALLOC-CAP: an allocation exceeds the chunk size of this obligation (harness bound too small)");
+#endif
   __CPROVER_assume(n <= VERIF_MAX_ALLOC);
   g_verif_alloc_total += n; g_verif_alloc_count += 1;
   uint8_t* p = malloc(VERIF_MAX_ALLOC);
